@@ -147,8 +147,11 @@ PROPS['C16'] = {
                 {'kind': 'unit', 'name': 'concpolicy', 'hcmd': 'conc-policy', 'dcmd': 'concpolicy', 'quick': 48, 'thorough': 2000, 'chunk': 4, 'args': []},
                 # an update/delete event the buffer accepted and never delivered shows as a value that left the cache without OnDeletion
                 {'kind': 'unit', 'name': 'concevents', 'hcmd': 'conc-events', 'dcmd': 'concevents', 'quick': 60, 'thorough': 3000, 'chunk': 10, 'args': [],
-                 'accept': lambda f: 'without an OnDeletion event' in f['msg']}],
-    'rule': 'CONC-policy (shared with C04/C05; every fourth script stalls the executor so that the write buffer fills up and writers hand their event over directly): no cache write is forgotten by the policy - table vs deques at quiescence. UNIT-mpsc: sequential push/pop phases over initial/maximum capacity pairs (2..100 / 4..2048), every chunk switch and the full/empty boundaries; model must reproduce the five index words and chunk lengths, oracle = bounded FIFO. '
+                 'accept': lambda f: 'without an OnDeletion event' in f['msg']},
+                # the hand-over path of a writer whose offers were refused (child process with a processor count that is not a power of two)
+                {'kind': 'unit', 'name': 'concdrain', 'hcmd': 'conc-drain', 'dcmd': 'concdrain', 'quick': 48, 'thorough': 1200, 'chunk': 8, 'args': [],
+                 'accept': lambda f: 'C16' in f['msg']}],
+    'rule': 'CONC-drain order runs: one goroutine rewrites one key 2-3 times the buffer capacity under a stalled executor; replaced values must reach OnDeletion in write order. CONC-policy (shared with C04/C05; every fourth script stalls the executor so that the write buffer fills up and writers hand their event over directly): no cache write is forgotten by the policy - table vs deques at quiescence. UNIT-mpsc: sequential push/pop phases over initial/maximum capacity pairs (2..100 / 4..2048), every chunk switch and the full/empty boundaries; model must reproduce the five index words and chunk lengths, oracle = bounded FIFO. '
             'CONC-mpsc: 1-12 real producers with (a) no consumer and offers that fit: no refusal allowed, (b) a consumer: delivery log exactly-once and in per-producer order. distinct = distinct transcripts with >= 10 lines',
     'trusted': UNIT_TRUST + CONC_TRUST,
 }
@@ -255,7 +258,7 @@ PINS = {
     'C13': ['Wheel'],
     'C14': ['CacheMaint'],
     'C15': ['MapSites'],
-    'C16': ['MpscSites'],
+    'C16': ['MpscSites', 'CacheMaint'],
     'C17': ['LossySites'],
     'C18': ['SketchSites', 'Policy'],
     'C19': ['PersistSites'],
